@@ -16,8 +16,9 @@ ASYNC_MODES = ["none", "none", "all", "mixed", "one", "guards", "actions"]
 class C01(Campaign):
     pid = "C01"
     title = "Transition selection follows the declared machine"
-    armed = {"op_state": "C01.state", "op_exc": "C01.exception"}
+    armed = {"op_state": "C01.state", "op_exc": "C01.exception", "x_state": "C01.state"}
     fault_kinds = ["raise@validator", "unknown-event", "guard-valuation-redrawn-per-event",
+                   "event sent to a second, independent machine from inside a callback",
                    "async-guard-delay", "async-guard-start-permutation"]
     rule = ("one run = one generated machine (2-5 states, <=14 transitions, up to 3+ candidates per "
             "(state,event), multi-event/self/internal transitions, cond+unless mixes, validators) x "
@@ -42,6 +43,8 @@ class C01(Campaign):
         k = self.knobs(rnd, tier)
         sc = gen.gen_scenario(rnd, k, profile=self.pid)
         prog = sc["programs"][0]
+        if rnd.random() < 0.25:
+            self.add_second_machine(rnd, sc)
         vals = sorted(c for c, m in prog["cbs"].items() if m["group"] == "validators")
         n = len(sc["ops"])
         if vals and rnd.random() < 0.6:
@@ -52,6 +55,38 @@ class C01(Campaign):
                 sc["beh"].setdefault(full, []).insert(
                     0, {"ep": ep, "raise": rnd.choice(["SimLookup", "SimValue", "SimFault"])})
         return sc
+
+    @staticmethod
+    def add_second_machine(rnd, sc):
+        """A second, independent machine B; some of A's callbacks send events to B, which must fire
+        B's transitions then and there (B's engine, queue and lock are its own)."""
+        from .concurrent import total_program
+
+        prog = sc["programs"][0]
+        b = total_program(rnd, False)
+        b["name"] = "B0"
+        b["module"] = "simgen_b0"
+        sc["programs"].append(b)
+        xs = gen.choose_effectful(rnd, prog, rnd.randint(1, 3), ("before", "exit", "on", "enter", "after"))
+        k = 0
+        for c in xs:
+            full = f"{prog['name']}/{c}"
+            rules = sc["beh"].setdefault(full, [{}])
+            for r in rules:
+                k += 1
+                r["xsends"] = [{"inst": "B", "event": rnd.choice(b["events"]), "kwargs": {"tok": f"x{k}"}}]
+        ops = sc["ops"]
+        newb = {"op": "new", "inst": "B", "prog": 1, "listeners": ["L0"], "rtc": True, "allow": True}
+        out = [newb, ops[0]]
+        for op in ops[1:]:
+            if rnd.random() < 0.2:
+                out.append({"op": "send", "inst": "B", "event": rnd.choice(b["events"]), "kwargs": {"tok": "d"}})
+            out.append(op)
+        sc["ops"] = out
+        for g in sc["gv"].values():
+            while len(g) < len(out):
+                g.append(g[-1])
+        sc["two_machines"] = True
 
     def classify(self, sc, res, findings):
         viol, unarmed = super().classify(sc, res, findings)
@@ -77,6 +112,7 @@ class C01(Campaign):
         st = ev["res"]["stats"]
         m = ev["mstats"]
         return {"fault.raise@validator": st.get("raises", 0), "probe.transition_not_allowed": m.get("tna", 0),
+                "fault.event_sent_to_another_machine_from_a_callback": st.get("xsends", 0),
                 "probe.multi_candidate_events": m.get("multi_candidate_ops", 0),
                 "fault.async_guard_start_permutations": st.get("perms", 0),
                 "fault.virtual_delays": st.get("delays", 0)}
